@@ -72,6 +72,28 @@ def gen(tier, rng):
     for ct in ["text/plain", "text/plain; charset=utf-8", "multipart/mixed; boundary=\"a b\"", "application/octet-stream", "TEXT/HTML; Charset=\"UTF-8\"",
                "image/png; name=\"x.png\"", "text/plain; format=flowed; delsp=yes", "not a type", "text/", "a/b; c=d; e=\"f g\""]:
         cases.append(f"typed\tctype\t{hexs(ct)}\t-")
+    # Date values offered to `Date::parse`: valid ones (both zone spellings), every single-octet mutation of one, wrong
+    # weekdays, out-of-range fields, the other two httpdate forms, padding, non-ASCII
+    import time as _time
+    base = "Tue, 15 Nov 1994 08:12:31 +0000"
+    dtexts = [base, base[:-5] + "GMT", "Sun, 06 Nov 1994 08:49:37 GMT", "Mon, 15 Nov 1994 08:12:31 +0000", "Tue, 31 Feb 1994 08:12:31 +0000",
+              "Thu, 01 Jan 1970 00:00:00 +0000", "Fri, 31 Dec 9999 23:59:59 +0000", "Wed, 31 Dec 1969 23:59:59 +0000", "Tue, 29 Feb 2000 00:00:00 +0000",
+              "Mon, 29 Feb 1900 00:00:00 +0000", "Tue, 15 Nov 1994 24:00:00 +0000", "Tue, 15 Nov 1994 08:60:31 +0000", "Tue, 15 Nov 1994 08:12:60 +0000",
+              "Tue, 00 Nov 1994 08:12:31 +0000", "Tue, 15 Nov 1994 08:12:31 -0500", "Tue, 15 Nov 1994 08:12:31 +0000 ", " " + base,
+              "Sunday, 06-Nov-94 08:49:37 GMT", "Sun Nov  6 08:49:37 1994", "", "+0000", "Tue, 15 Nov 1994 08:12:31 +000", "Tüe, 15 Nov 1994 08:12:31 +0000",
+              "tue, 15 nov 1994 08:12:31 +0000", "Tue, 15 Nov 1994 08:12:31  GMT", "Tue,15 Nov 1994 08:12:31 +0000"]
+    for i in range(len(base)):
+        for ch in "0 9:,Ax+":
+            dtexts.append(base[:i] + ch + base[i + 1:])
+    for _ in range({"quick": 400, "search": 1500, "thorough": 8000}[tier]):
+        secs = rng.choice([rng.randrange(0, 253402300800), rng.randrange(0, 2 * 10 ** 9)])
+        t = _time.strftime("%a, %d %b %Y %H:%M:%S +0000", _time.gmtime(secs))
+        if rng.random() < 0.5:
+            i = rng.randrange(len(t))
+            t = t[:i] + rng.choice("0123456789 :,JFMASONDabcdefghijklmnopqrstuvy") + t[i + 1:]
+        dtexts.append(t)
+    for t in dtexts:
+        cases.append(f"dparse\t{hexs(t) if t else '-'}")
     for t in ["plain", "héllo wörld", "a  b", " lead", "trail ", "x" * 200, "=?utf-8?b?aGk=?="]:
         cases.append(f"typed\ttext\t{hexs(t)}\t-")
     return cases
